@@ -8,7 +8,7 @@ D=/verif/seeded/equiv/$1; T=$1; shift
 WT=/tmp/eqrun_$T
 git -C /repo worktree remove --force $WT 2>/dev/null
 git -C /repo worktree add -q --detach $WT HEAD || exit 2
-if ! git -C $WT apply $D/patch.diff; then echo "$T: patch does not apply" | tee $D/outcome.txt; git -C /repo worktree remove --force $WT; exit 2; fi
+if ! git -C $WT apply $D/patch.diff; then echo "$T: patch does not apply to the current /repo HEAD (outcome.txt left as it was)"; git -C /repo worktree remove --force $WT; exit 2; fi
 cd /verif
 touch $D/outcome.txt
 for c in "$@"; do
